@@ -54,6 +54,9 @@ def f1(ctx):
             ok = len(searches) == 1 and tag(carg) in ("closure", "fn")
             got = closure_cmp(ctx, carg[1].split("::<")[0] if tag(carg) == "fn" else carg[1]) if ok else None
             # the value searched for: the new segment's data size (insertion) / the requested size (pop)
+            # `next <= val` is `val >= next`
+            if got is not None and got[1] == "next" and got[2] == "val" and got[0] in ("Le", "Ge", "Lt", "Gt"):
+                got = ({"Le": "Ge", "Ge": "Le", "Lt": "Gt", "Gt": "Lt"}[got[0]], "val", "next")
             yield Ob(key_of("C10-F1", b.path, "comparator"), got == cmpw, "%s searches with %s (want %s)" % (name, got, cmpw), ctx.loc(searches[0]) if searches else b.loc())
             if ok and name.endswith("dealloc"):
                 v = searches[0]["args"][1]
